@@ -15,7 +15,7 @@ from testtools.matchers import Mismatch
 from testtools.runtest import MultipleExceptions
 from testtools.testresult import doubles, real
 
-FLAVOURS = ("ext", "py26", "py27", "twisted", "tt", "stream", "none")
+FLAVOURS = ("ext", "py26", "py27", "twisted", "tt", "stream", "none", "rtw")
 
 
 class CustomExc(Exception):
@@ -38,6 +38,18 @@ class SubKI(KeyboardInterrupt):
     pass
 
 
+class Abort(BaseException):
+    """A user-defined exception that does not derive from Exception (like asyncio.CancelledError, GeneratorExit)."""
+
+
+class Base3(Exception):
+    pass
+
+
+class Sub3(Base3):
+    """custom3: user handlers inserted as [(Base3, failure), (Sub3, skip)] - list order decides: failure."""
+
+
 class ReasonObj:
     """A skip reason that is not a str but "supports being cast into a unicode string"."""
 
@@ -48,7 +60,7 @@ class ReasonObj:
         return self.text
 
 
-PROP = {KeyboardInterrupt: "ki", SystemExit: "exit", SubKI: "subki"}
+PROP = {KeyboardInterrupt: "ki", SystemExit: "exit", SubKI: "subki", Abort: "abort"}
 
 
 class Target:
@@ -108,7 +120,7 @@ def name_str(b, n):
 
 
 MISMATCH_DETAILS = {"m0": [], "m1": ["diff"], "m2": ["traceback", "Failed expectation"]}
-FIXTURE_DETAILS = {"f_ok": ["fxd"], "f_tb": ["traceback"], "f_two": ["traceback", "traceback-1"], "f_bad": ["fxd"], "f_cr": ["fxd"]}
+FIXTURE_DETAILS = {"f_ok": ["fxd"], "f_tb": ["traceback"], "f_two": ["traceback", "traceback-1"], "f_bad": ["fxd"], "f_cr": ["fxd"], "f_gr": ["fxd"]}
 
 
 class SynthMismatch(Mismatch):
@@ -139,9 +151,27 @@ class SynthFixture(fixtures.Fixture):
         self.env = env
         self.f = f
 
+    def _sourced(self, cid):
+        """A detail that is read lazily, once, from a source which the fixture destroys in its cleanUp
+        (like content_from_file on a file in a temporary directory)."""
+        src = self.source
+        env, f = self.env, self.f
+
+        def read():
+            if f == "f_gr":
+                env.nraised += 1
+                raise RuntimeError("MARK-fxgather:%s-%d" % (f, env.nraised))
+            for chunk in list(src.get(cid, ())):
+                yield chunk
+
+        return ttcontent.Content(ContentType("text", "plain", {"charset": "utf8"}), read)
+
     def _setUp(self):
+        self.source = {}
         for b in FIXTURE_DETAILS[self.f]:
-            self.addDetail(b, fixed_content("fx:%s:%s" % (self.f, b)))
+            cid = "fx:%s:%s" % (self.f, b)
+            self.source[cid] = [cid.encode("utf8")]
+            self.addDetail(b, self._sourced(cid))
         if self.f == "f_bad":
             self.env.nraised += 1
             i = self.env.nraised
@@ -156,6 +186,7 @@ class SynthFixture(fixtures.Fixture):
         env.ran.append(unit)
         env.seen.append(env.attrs())
         env.epoch += 1
+        self.source.clear()  # the fixture's resources are gone now
         if self.f == "f_cr":
             env.nraised += 1
             raise RuntimeError("MARK-%s-%d" % (unit, env.nraised))
@@ -187,6 +218,10 @@ def make_exc(case, env, unit, kind):
         return Custom2Exc(mark)
     if kind == "subfail":
         return SubFail(mark)
+    if kind == "abort":
+        return Abort(mark)
+    if kind == "custom3":
+        return Sub3(mark)
     raise ValueError(kind)
 
 
@@ -201,6 +236,11 @@ def _custom_handler(case, result, exc):
     result.addFailure(case, details=case.getDetails())
 
 
+def _sub3_handler(case, result, exc):  # pragma: no cover - shadowed by the Base3 handler before it in the list
+    case._add_reason("shadowed handler fired")
+    result.addSkip(case, details=case.getDetails())
+
+
 def _custom2_handler(case, result, exc):  # pragma: no cover - must never be reached
     result.addSuccess(case, details=case.getDetails())
 
@@ -212,7 +252,11 @@ class SynthBase(testtools.TestCase):
         super().__init__(method)
         self.env = env
         # user-inserted handlers: front (takes precedence) and behind Exception (never fires)
+        self.exception_handlers.insert(0, (Sub3, _sub3_handler))
+        self.exception_handlers.insert(0, (Base3, _custom_handler))
         self.exception_handlers.insert(0, (CustomExc, _custom_handler))
+        if env.prog.get("preforce"):
+            self.force_failure = True
         self.exception_handlers.append((Custom2Exc, _custom2_handler))
         if env.prog["onexc"]:
             self.addOnException(self._on_exception)
@@ -318,6 +362,14 @@ class SynthPlain(SynthBase):
         self._body()
 
 
+class SynthRunTestWith(SynthBase):
+    """Same test, but the method carries @run_test_with(RunTest) (the runner is made by the decorator's factory)."""
+
+    @testtools.run_test_with(testtools.RunTest)
+    def test_body(self):
+        self._body()
+
+
 class SynthSkipped(SynthBase):
     @testtools.skip("decorated-skip")
     def test_body(self):
@@ -404,7 +456,7 @@ for _n in ("startTest", "stopTest") + tuple(OUTCOME_OF):
 
 
 def make_result(flavour, env):
-    if flavour in ("ext", "none"):
+    if flavour in ("ext", "none", "rtw"):
         return ExtRecorder(env)
     if flavour == "py26":
         return doubles.Python26TestResult()
